@@ -10,7 +10,6 @@ import (
 	"github.com/projecteru2/core/store"
 	"github.com/projecteru2/core/types"
 
-	"github.com/alphadose/haxmap"
 	"github.com/google/uuid"
 )
 
@@ -19,8 +18,12 @@ const interval = 15 * time.Second
 // Helium .
 type Helium struct {
 	sync.Once
-	store     store.Store
-	subs      *haxmap.Map[uint32, entry]
+	store store.Store
+	// subscribers; a plain map under a lock: the lock-free map used before could lose an entry
+	// that was added while a deleted one was being unlinked (it stayed reachable by key but was
+	// never iterated again, so that subscriber never got a push)
+	mu        sync.RWMutex
+	subs      map[uint32]entry
 	interval  time.Duration
 	unsubChan chan uint32
 }
@@ -36,7 +39,7 @@ func New(ctx context.Context, config types.GRPCConfig, store store.Store) *Heliu
 	h := &Helium{
 		interval:  config.ServiceDiscoveryPushInterval,
 		store:     store,
-		subs:      haxmap.New[uint32, entry](),
+		subs:      map[uint32]entry{},
 		unsubChan: make(chan uint32),
 	}
 	if h.interval < time.Second {
@@ -55,11 +58,13 @@ func (h *Helium) Subscribe(ctx context.Context) (uuid.UUID, <-chan types.Service
 	subCtx, cancel := context.WithCancel(ctx)
 	// one slot per subscriber: dispatch never waits for a subscriber, see dispatch
 	ch := make(chan types.ServiceStatus, 1)
-	h.subs.Set(key, entry{
+	h.mu.Lock()
+	h.subs[key] = entry{
 		ch:     ch,
 		ctx:    subCtx,
 		cancel: cancel,
-	})
+	}
+	h.mu.Unlock()
 	return ID, ch
 }
 
@@ -70,7 +75,10 @@ func (h *Helium) Unsubscribe(ID uuid.UUID) {
 	// sending a status to this very subscriber (which has stopped reading because it is
 	// unsubscribing). Cancel the subscription first so that dispatch lets go of it,
 	// otherwise both sides wait for each other forever.
-	if entry, ok := h.subs.Get(key); ok {
+	h.mu.RLock()
+	entry, ok := h.subs[key]
+	h.mu.RUnlock()
+	if ok {
 		entry.cancel()
 	}
 	h.unsubChan <- key
@@ -104,9 +112,12 @@ func (h *Helium) start(ctx context.Context) {
 				}
 
 			case ID := <-h.unsubChan:
-				if entry, ok := h.subs.Get(ID); ok {
+				h.mu.Lock()
+				entry, ok := h.subs[ID]
+				delete(h.subs, ID)
+				h.mu.Unlock()
+				if ok {
 					entry.cancel()
-					h.subs.Del(ID)
 					close(entry.ch)
 				}
 
@@ -137,8 +148,9 @@ func (h *Helium) dispatch(ctx context.Context, status types.ServiceStatus) {
 			return
 		}
 	}
-	h.subs.ForEach(func(k uint32, v entry) bool {
+	h.mu.RLock()
+	defer h.mu.RUnlock()
+	for k, v := range h.subs {
 		f(k, v)
-		return true
-	})
+	}
 }
